@@ -981,8 +981,28 @@ func liftOver(x, other *E) bool {
 	if other.IsConst() || other.IsNil() || other.Op == "bool" {
 		return true
 	}
-	leafConst := func(e *E) bool { return e.IsConst() || e.IsNil() }
-	return leafConst(x.Args[0]) && leafConst(x.Args[1])
+	// a selection among constants (nested selections included, up to 16 alternatives): a rank
+	return constLeaves(x, 16) > 0 && (other.Op != "ite" || constLeaves(other, 16) > 0)
+}
+
+// constLeaves counts the alternatives of a (nested) selection if all of them are constants and
+// there are at most max of them; 0 otherwise.
+func constLeaves(e *E, max int) int {
+	if e.IsConst() || e.IsNil() {
+		return 1
+	}
+	if e.Op != "ite" || max <= 1 {
+		return 0
+	}
+	a := constLeaves(e.Args[0], max-1)
+	if a == 0 {
+		return 0
+	}
+	b := constLeaves(e.Args[1], max-a)
+	if b == 0 {
+		return 0
+	}
+	return a + b
 }
 
 // Collect returns every distinct sub-expression of e (including inside
